@@ -23,6 +23,9 @@ ASSUMPTIONS = [
 FLOOR = {"recommendations_checked": {"quick": 600, "thorough": 4800},
          "candidates_compared": {"quick": 40000, "thorough": 320000}}
 WALL = {"quick": 1200, "thorough": 4 * 3600}
+# order-sensitive histories (the best evaluation is the latest / the first / a recent one at every stopping time): a
+# quarter of the simple-algorithm runs - a candidate list that loses its newest or oldest entry shows only there
+ORDER = ["incr", "incr", "decr", "best_first", "best_last", "records", "records"]
 SIMPLE = ["DOO", "DOO_delta", "SOO", "SequOOL", "StoSOO", "StroquOOL"]
 
 
@@ -35,7 +38,7 @@ def gen_cases(rng, tier, count=None):
             c["reward"]["family"] = str(rng.choice(FAMS))
         else:
             a = SIMPLE[i % len(SIMPLE)]
-            c = gen.algo_case(rng, a, tier, fams=FAMS)
+            c = gen.algo_case(rng, a, tier, fams=ORDER if rng.random() < 0.25 else FAMS)
         if c["algo"] == "StoSOO" and rng.random() < 0.4:
             # a cap one or two levels too tight: once the cells above it are used up pull returns None (C01's
             # business); the recommendation asked then must still follow the deepest-level rule
